@@ -2,6 +2,7 @@ package core
 
 import (
 	"fmt"
+	"math"
 	"sync/atomic"
 )
 
@@ -37,9 +38,17 @@ func (a *IDAllocator) Reserve(n uint64) (first, last uint64, err error) {
 	if n == 0 {
 		return 0, 0, fmt.Errorf("%w: reserve n must be >= 1", ErrInvalidBatch)
 	}
-	last = a.next.Add(n)
-	first = last - n + 1
-	return first, last, nil
+	for {
+		cur := a.next.Load()
+		if n > math.MaxUint64-cur {
+			// The batch does not fit below the top of the id space: wrapping around would
+			// hand out ids a second time.
+			return 0, 0, fmt.Errorf("%w: reserve n=%d exhausts the id space", ErrInvalidBatch, n)
+		}
+		if a.next.CompareAndSwap(cur, cur+n) {
+			return cur + 1, cur + n, nil
+		}
+	}
 }
 
 // Current returns the last allocated ID.
